@@ -1073,6 +1073,60 @@ def _compile(filename, tree, freevars):
     return compile(ast.Module(body=[tree], type_ignores=[]), filename, "exec")
 
 
+def _same_code(a, b):
+    """Whether two code objects come from the same source (positions aside)."""
+    fields = (
+        "co_name co_firstlineno co_argcount co_posonlyargcount"
+        " co_kwonlyargcount co_flags co_code co_names co_varnames"
+        " co_freevars co_cellvars"
+    ).split()
+    if any(getattr(a, f) != getattr(b, f) for f in fields):
+        return False
+    if len(a.co_consts) != len(b.co_consts):
+        return False
+    for x, y in zip(a.co_consts, b.co_consts):
+        if isinstance(x, types.CodeType) and isinstance(y, types.CodeType):
+            if not _same_code(x, y):
+                return False
+        elif type(x) is not type(y) or x != y:
+            return False
+    return True
+
+
+def _reuse_nested_code(code, fname, original):
+    """Make the (new) code of function fname use the nested code of original.
+
+    Functions defined inside fn are not rewritten. If the instrumented code
+    creates them from recompiled copies of their code, the absolute reference
+    of an instance made while fn is instrumented cannot be resolved (the
+    registry knows the original code objects), so reuse the original objects
+    wherever the nested code is unchanged.
+    """
+    if code.co_name == fname and code is not original:
+        olds = [
+            ct for ct in original.co_consts if isinstance(ct, types.CodeType)
+        ]
+        consts = []
+        for ct in code.co_consts:
+            if isinstance(ct, types.CodeType):
+                for old in olds:
+                    if _same_code(ct, old):
+                        ct = old
+                        break
+            consts.append(ct)
+    else:
+        consts = [
+            _reuse_nested_code(ct, fname, original)
+            if isinstance(ct, types.CodeType)
+            and ct.co_name in (fname, "#WRAP")
+            else ct
+            for ct in code.co_consts
+        ]
+    if all(x is y for x, y in zip(consts, code.co_consts)):
+        return code
+    return code.replace(co_consts=tuple(consts))
+
+
 def _standard_info():
     return {
         "#enter": {
@@ -1226,6 +1280,7 @@ def transform(fn, proceed, to_instrument=True, set_conformer=True):
     ast.increment_lineno(new_tree, lineno - 1)
     freevars = fn.__code__.co_freevars
     new_fn = _compile(filename, new_tree, freevars)
+    new_fn = _reuse_nested_code(new_fn, fn.__name__, fn.__code__)
 
     fname = fn.__name__
     save = glb.get(fname, ABSENT)
